@@ -10,6 +10,13 @@
 #include <rime/common.h>
 #include <rime/deployer.h>
 
+#ifdef RIME_VERIF_HOOKS
+extern "C" {
+void (*rime_verif_yield_hook)(int point) = nullptr;
+void (*rime_verif_task_hook)(int event, const void* task) = nullptr;
+}
+#endif
+
 namespace rime {
 
 Deployer::Deployer()
@@ -55,11 +62,14 @@ bool Deployer::ScheduleTask(const string& task_name, TaskInitializer arg) {
 }
 
 void Deployer::ScheduleTask(an<DeploymentTask> task) {
+  RIME_VERIF_YIELD(RIME_VERIF_SCHEDULE_ENTER);
   std::lock_guard<std::mutex> lock(mutex_);
   pending_tasks_.push(task);
+  RIME_VERIF_TASK(RIME_VERIF_TASK_SCHEDULED, task.get());
 }
 
 an<DeploymentTask> Deployer::NextTask() {
+  RIME_VERIF_YIELD(RIME_VERIF_NEXTTASK_ENTER);
   std::lock_guard<std::mutex> lock(mutex_);
   if (!pending_tasks_.empty()) {
     auto result = pending_tasks_.front();
@@ -72,18 +82,22 @@ an<DeploymentTask> Deployer::NextTask() {
 }
 
 bool Deployer::HasPendingTasks() {
+  RIME_VERIF_YIELD(RIME_VERIF_HASPENDING_ENTER);
   std::lock_guard<std::mutex> lock(mutex_);
   return !pending_tasks_.empty();
 }
 
 bool Deployer::Run() {
   LOG(INFO) << "running deployment tasks:";
+  RIME_VERIF_YIELD(RIME_VERIF_RUN_ENTER);
   message_sink_("deploy", "start");
   int success = 0;
   int failure = 0;
   do {
     while (auto task = NextTask()) {
       try {
+        RIME_VERIF_YIELD(RIME_VERIF_RUN_TASK_BODY);
+        RIME_VERIF_TASK(RIME_VERIF_TASK_RUN, task.get());
         if (task->Run(this))
           ++success;
         else
@@ -100,6 +114,7 @@ bool Deployer::Run() {
     // new tasks could have been enqueued while we were sending the message.
     // before quitting, double check if there is nothing left to do.
   } while (HasPendingTasks());
+  RIME_VERIF_YIELD(RIME_VERIF_RUN_RETURN);
   return !failure;
 }
 
@@ -108,6 +123,7 @@ bool Deployer::StartWork(bool maintenance_mode) {
     LOG(WARNING) << "a work thread is already running.";
     return false;
   }
+  RIME_VERIF_YIELD(RIME_VERIF_STARTWORK_TESTED);
   maintenance_mode_ = maintenance_mode;
   if (pending_tasks_.empty()) {
     return false;
@@ -119,6 +135,7 @@ bool Deployer::StartWork(bool maintenance_mode) {
   LOG(INFO) << "starting work thread for " << pending_tasks_.size()
             << " tasks.";
   work_ = std::async(std::launch::async, [this] { Run(); });
+  RIME_VERIF_YIELD(RIME_VERIF_STARTWORK_SPAWNED);
   return work_.valid();
 #endif
 }
